@@ -141,8 +141,33 @@ pub fn run(ctx: &mut Ctx) {
             }
         }
     }
+    // every byte value at every position of a *constant* string (an implementation that skips or
+    // batches runs of one character must still validate every byte), and zero-padded tails: a random
+    // prefix followed by 1..=12 '0' characters (what the padding of a real message looks like)
+    for base in [b'0', b'@', b'w', b'P'] {
+        for len in [1usize, 2, 3, 4, 5, 7, 8, 9, 12, 16, 17, 24, 25] {
+            for pos in 0..len {
+                for val in 0..=255u8 {
+                    let mut d = vec![base; len];
+                    d[pos] = val;
+                    cases.push((d, (pos + val as usize) % 6));
+                }
+            }
+        }
+    }
+    for _ in 0..blocks * 4 {
+        let plen = 1 + (mix.next() % 9) as usize;
+        let prefix: Vec<u8> = mix.bytes(plen).iter().map(|b| ALPHABET[(*b & 63) as usize]).collect();
+        for zeros in 1..=12usize {
+            for fill in 0..6 {
+                let mut d = prefix.clone();
+                d.extend(std::iter::repeat(b'0').take(zeros));
+                cases.push((d, fill));
+            }
+        }
+    }
     bulk(ctx, "repetitive-strings", cases.into_iter());
-    ctx.mark_exhaustive("repetitive-strings", "constant strings of each of the 64 characters (lengths 1..=24) and strings of a repeated random block of 1..=8 characters (lengths 1..=48) x fill 0..=5");
+    ctx.mark_exhaustive("repetitive-strings", "constant strings of each of the 64 characters (lengths 1..=24); strings of a repeated random block of 1..=8 characters (lengths 1..=48) x fill 0..=5; every byte value at every position of constant strings of '0', '@', 'w', 'P' (13 lengths up to 25); random prefixes followed by 1..=12 '0' characters x fill 0..=5");
 
     // the other two builds: every byte at every position of short strings, and the lengths around the
     // 384-byte output capacity of the no-allocator build (512 characters still fit)
